@@ -9,8 +9,10 @@ CONSTANTS
   LVs = {"l1"}
   Variant = "as_found"
   Broken = "none"
+  MapWindow = TRUE
   MaxPrints = 0
   MaxFree = 0
 VIEW view
+CONSTRAINT Canon
 INVARIANTS RegConservation
 CHECK_DEADLOCK FALSE
